@@ -16,6 +16,7 @@ pub mod smoke;
 pub mod tables;
 pub mod teardown;
 pub mod tower;
+pub mod towermisc;
 pub mod wire;
 
 use serde_json::Value;
@@ -70,6 +71,7 @@ pub fn dispatch(args: &[String]) -> i32 {
         "replay-rate" => tower::replay_rate(&a),
         "rate-hint-probe" => tower::rate_hint_probe(&a),
         "limstress" => limstress::main(&a),
+        "replay-towermisc" => towermisc::replay(&a),
         other => {
             eprintln!("unknown scenario {other}");
             2
